@@ -110,3 +110,29 @@ Qed.
 (* MD001 on two headings: reported iff the second is more than one level deeper *)
 Lemma md001_two_l h1 h2 : md001_go None [h1; h2] = if S (h_lvl h1) <? h_lvl h2 then [h_line h2] else [].
 Proof. cbn [md001_go app]. destruct (S (h_lvl h1) <? h_lvl h2); reflexivity. Qed.
+
+(* MD004 with a fixed style: exactly the unordered lists whose marker is another character, at their first line *)
+Lemma md004_fixed_exact_l c lsts ln :
+  In ln (must (md004 (K4Fixed c) lsts)) <-> exists l, In l lsts /\ l_ord l = false /\ l_delim l <> c /\ l_sl l = ln.
+Proof.
+  unfold md004, only. cbn [must]. rewrite in_flat_map. split.
+  - intros (l & Il & H). apply filter_In in Il as [Il Ho]. apply negb_true_iff in Ho.
+    destruct (N.eqb_spec (l_delim l) c) as [E|N]; [destruct H|]. destruct H as [<-|[]]. exists l. auto.
+  - intros (l & Il & Ho & N & <-). exists l. split; [apply filter_In; split; [exact Il | now rewrite Ho]|].
+    destruct (N.eqb_spec (l_delim l) c); [contradiction | now left].
+Qed.
+
+(* MD004 consistent: nothing is reported when every unordered list uses the marker of the first one *)
+Lemma md004_consistent_quiet_l lsts c :
+  (forall l, In l lsts -> l_ord l = false -> l_delim l = c) -> must (md004 K4Consistent lsts) = [].
+Proof.
+  intros H. unfold md004. destruct (filter (fun l => negb (l_ord l)) lsts) as [|l0 r] eqn:F; [reflexivity|].
+  unfold only. cbn [must].
+  assert (A : forall l, In l (l0 :: r) -> l_delim l = c).
+  { intros l Il. rewrite <- F in Il. apply filter_In in Il as [Il Ho]. apply H; [exact Il | now apply negb_true_iff in Ho]. }
+  assert (E0 : l_delim l0 = c) by (apply A; now left).
+  assert (Ar : forall l, In l r -> l_delim l = c) by (intros l Il; apply A; now right).
+  rewrite E0. clear F A E0 H. induction r as [|x r IH]; [reflexivity|]. cbn [flat_map].
+  rewrite (Ar x (or_introl eq_refl)), N.eqb_refl. cbn [app]. apply IH. intros l Il. apply Ar. now right.
+Qed.
+
